@@ -8,7 +8,7 @@
    root + (12 i, 12 j) + {(0,0), (4,8), (8,4)}.  All quantifiers range over all integers. *)
 From Coq Require Import ZArith List Bool.
 Require Import Rig.Generated.GenBoardTables Rig.Generated.GenBoard Rig.Model.Base Rig.Model.Board
-               Rig.Spec.Board Rig.Proofs.Board.
+               Rig.Spec.Board Rig.Proofs.Board Rig.Model.BoardSqrt Rig.Proofs.BoardSqrt.
 Import ListNotations.
 Open Scope Z_scope.
 
@@ -99,20 +99,45 @@ Theorem C19_links_agree :
   map (fun p => (fst p, Some (snd p))) Links_to_vector = map (fun l => (l, link_vector l)) Links_all.
 Proof. exact links_agree. Qed.
 
-(* Standard dimensions: for n = 3 k boards, k >= 1, the result is 12 x the squarest arrangement of k
-   three-board units.  (Model with Z.sqrt for int(sqrt(k)); compared with the code over the range stated
-   in the evidence file.) *)
+(* Standard dimensions.  The float step first: over IEEE-754 binary64 (Flocq: float(k) rounded to
+   nearest even, correctly rounded square root, truncation), int(math.sqrt(k)) is the integer square root
+   for every 0 <= k < 2^52.  (These theorems use the Reals library; Print Assumptions lists its axioms.
+   Every other theorem of this file is closed under the global context.) *)
+Theorem C19_float_isqrt_exact :
+  forall k, 0 <= k < 2 ^ 52 -> float_isqrt_f k = Ok (Z.sqrt k).
+Proof. exact float_isqrt_exact. Qed.
+
+(* For n = 3 k boards, 1 <= k < 2^52 (the stated bound; beyond it the double square root may be off by
+   one), the binary64 model of the code returns 12 x the squarest arrangement of k three-board units. *)
 Theorem C19_standard_dims_squarest :
+  forall n k, 1 <= k < 2 ^ 52 -> n = 3 * k ->
+    exists a b, standard_system_dimensions_f n = Ok (a * 12, b * 12) /\ squarest k a b.
+Proof. exact standard_dims_f_squarest. Qed.
+
+Theorem C19_standard_dims_special :
+  standard_system_dimensions_f 0 = Ok (0, 0) /\ standard_system_dimensions_f 1 = Ok (8, 8).
+Proof. exact standard_dims_f_special. Qed.
+
+(* every other board count is the ValueError *)
+Theorem C19_standard_dims_error :
+  forall n, n <> 0 -> n <> 1 -> n mod 3 <> 0 \/ n < 0 -> standard_system_dimensions_f n = Failed 0.
+Proof. exact standard_dims_f_error. Qed.
+
+(* The same with an exact integer square root in place of the float: no bound on k, and no axiom. *)
+Theorem C19_standard_dims_models_agree :
+  forall n, n / 3 < 2 ^ 52 -> standard_system_dimensions_f n = standard_system_dimensions n.
+Proof. exact standard_dims_f_eq. Qed.
+
+Theorem C19_standard_dims_squarest_zsqrt :
   forall n k, 1 <= k -> n = 3 * k ->
     exists a b, standard_system_dimensions n = Ok (a * 12, b * 12) /\ squarest k a b.
 Proof. exact standard_dims_squarest. Qed.
 
-Theorem C19_standard_dims_special :
+Theorem C19_standard_dims_special_zsqrt :
   standard_system_dimensions 0 = Ok (0, 0) /\ standard_system_dimensions 1 = Ok (8, 8).
 Proof. exact standard_dims_special. Qed.
 
-(* every other board count is the ValueError *)
-Theorem C19_standard_dims_error :
+Theorem C19_standard_dims_error_zsqrt :
   forall n, n <> 0 -> n <> 1 -> n mod 3 <> 0 \/ n < 0 -> standard_system_dimensions n = Failed 0.
 Proof. exact standard_dims_error. Qed.
 
@@ -133,3 +158,7 @@ Proof. exact ex_links. Qed.
 Example C19_standard_dims_instance :
   standard_system_dimensions 18 = Ok (36, 24) /\ squarest 6 3 2.
 Proof. exact ex_dims. Qed.
+
+Example C19_standard_dims_float_instance :
+  standard_system_dimensions_f 18 = Ok (36, 24) /\ float_isqrt_f 4503599627370495 = Ok 67108863.
+Proof. split; vm_compute; reflexivity. Qed.
